@@ -42,7 +42,7 @@ func init() {
 			}
 		}})
 
-	register(&Rule{ID: "C04.price", Props: []string{"C04", "C15"}, Floor: 8,
+	register(&Rule{ID: "C04.price", Props: []string{"C04", "C15", "C05"}, Floor: 8,
 		Doc: "share prices are evaluated on the asset and validator before any ledger write of the operation",
 		Run: func(e *Engine, r *RuleRun) {
 			priceFns := []string{"types.GetValidatorShares", "types.GetDelegationTokensWithShares", "keeper.Keeper.ValidateDelegatedAmount", "keeper.Keeper.upsertDelegationWithNewTokens"}
@@ -125,8 +125,22 @@ func init() {
 				switch {
 				case amt.IsCall("sdk.NewCoins", "sdk.Coins.Add", "sdk.Coins.Sub"):
 					ok = true
-				case amt.Op == "param", amt.Op == "phi", amt.Op == "extract", amt.Op == "ncall":
-					ok = true // produced by another function / accumulated with Coins.Add (checked where it is built)
+				case amt.Op == "param", amt.Op == "extract", amt.Op == "ncall":
+					ok = true // produced by another function (checked where it is built)
+				case amt.Op == "phi":
+					// an accumulator: every value that flows into it is empty or the result of a sanitising operation;
+					// a coin set grown with append() keeps zero amounts and duplicate denoms
+					ok = true
+					_, leaves := phiCluster(fa, amt)
+					for _, l := range leaves {
+						switch {
+						case l.Op == "const" && l.Name == "nil", l.Op == "zero":
+						case l.IsCall("sdk.NewCoins", "sdk.Coins.Add", "sdk.Coins.Sub", "sdk.Coins.Sort"):
+						case l.Op == "param", l.Op == "extract", l.Op == "ncall":
+						default:
+							ok = false
+						}
+					}
 				}
 				r.Check(ok, FuncKey(s.fn), "coins passed to "+s.atom, "sanitised coin set", "the bank keeper is given a raw coin slice ("+amt.String()+"): a zero or unsorted coin makes the transfer fail with `invalid coins` (sdk.NewCoins drops zero coins), so a dust amount aborts the enclosing callback / end-of-block", r.P(s.call))
 			}
